@@ -29,7 +29,19 @@ Import ListNotations.
 Local Open Scope Q_scope.
 """ + G.COQ_LEVEL_HELPER + """
 Definition t_case := (Q * list (list level) * option Q * list nx * list nx * list (option nx) * final_select)%type.
-(* 0 shape, 1 SQL generable, 2 gamma CASE, 3 bf CASE, 4 tf CASE, 5 final select + WHERE *)
+(* the numerators u of POW(u / divisor, w) found in an emitted TF CASE, in order *)
+Fixpoint pow_bases (e : nx) : list Q :=
+  match e with
+  | NIf _ t r => pow_bases t ++ pow_bases r
+  | NPow (NDiv (NLit u) _) _ => [u]
+  | _ => []
+  end.
+(* what the model expects there: u_exact of every level whose branch reaches POW *)
+Definition expected_bases (ls : list level) : list Q :=
+  flat_map (fun lc => if tf_active (fst lc) (snd lc) then [u_exact_or ls (fst lc)] else []) (combine ls (assign_cvv ls)).
+Fixpoint qlist_eqb (a b : list Q) : bool :=
+  match a, b with [], [] => true | x :: t, y :: t' => Qeq_bool x y && qlist_eqb t t' | _, _ => false end.
+(* 0 shape, 1 SQL generable, 2 gamma CASE, 3 bf CASE, 4 tf CASE, 5 final select + WHERE, 6 u_exact literals of the TF CASE *)
 Definition t_report (c : t_case) : list bool :=
   match c with (p, cmps, thr, gs, bs, ts, f) =>
     let ic := combine (seq 0 (length cmps)) cmps in
@@ -40,12 +52,16 @@ Definition t_report (c : t_case) : list bool :=
       forallb (fun x => match snd x with
                         | Some e => has_tf (snd (fst x)) && nx_eqb e (gen_tf_case (fst (fst x)) (snd (fst x)))
                         | None => negb (has_tf (snd (fst x))) end) (combine ic ts);
-      final_ok p cmps thr f ]
+      final_ok p cmps thr f;
+      forallb (fun x => match snd x with
+                        | Some e => qlist_eqb (pow_bases e) (expected_bases (fst x))
+                        | None => true end) (combine cmps ts) ]
   end.
 Definition t_ok (c : t_case) : bool := forallb (fun b => b) (t_report c).
 """
 T_PARTS = ["shape", "sql-generable", "gamma CASE (Comparison._case_statement)", "bayes-factor CASE (_bayes_factor_sql)",
-           "tf-adjustment CASE (_tf_adjustment_sql)", "final select / WHERE (_combine_prior_and_bfs, threshold)"]
+           "tf-adjustment CASE (_tf_adjustment_sql)", "final select / WHERE (_combine_prior_and_bfs, threshold)",
+           "u_exact literal of the TF CASE (_u_probability_corresponding_to_exact_match: first single-column exact level on the TF column)"]
 
 SOURCES = ["splink/internals/predict.py", "splink/internals/comparison.py", "splink/internals/comparison_level.py",
            "splink/internals/term_frequencies.py", "splink/internals/settings.py", "splink/internals/misc.py",
@@ -86,7 +102,7 @@ def skeleton_stage(ctx: Ctx):
     items = []
     for i in range(n):
         boundary = (i % 6 == 5)
-        spec = G.gen_spec(ctx.rng, "T", boundary=boundary)
+        spec = G.gen_spec(ctx.rng, "T", boundary=boundary, multi_exact=(i % 3 == 1 and not boundary))
         dialect = "duckdb" if i % 4 else "sqlite"
         thr_p, thr_w, thrq = thr_choice(ctx.rng)
         items.append({"spec": spec, "dialect": dialect, "thr_p": thr_p, "thr_w": thr_w, "thrq": thrq, "boundary": boundary})
@@ -131,7 +147,8 @@ def skeleton_stage(ctx: Ctx):
 
 def gen_case(rng, backend, boundary=False, mode="X"):
     allow_inf = backend == "duckdb"      # SQLite: CAST('Infinity' AS float8) is 0.0 -> log2 raises (loud), see DESIGN
-    spec = G.gen_spec(rng, mode, boundary=boundary, allow_inf=allow_inf)
+    spec = G.gen_spec(rng, mode, boundary=boundary, allow_inf=allow_inf,
+                      multi_exact=(not boundary and rng.random() < 0.3))
     rows = X.gen_data(rng)
     lookups = X.gen_lookups(rng, spec, rows)
     rules = rng.choice([["1=1"], ["1=1"], ["l.a = r.a", "l.b = r.b", "substr(l.c,1,1) = substr(r.c,1,1)"],
@@ -142,7 +159,7 @@ def gen_case(rng, backend, boundary=False, mode="X"):
     thr_p = None if r < 0.15 else ({"row": rng.randint(0, 50)} if r < 0.55 else rng.choice([0.5, 0.25, 0.9, 0.01, 0.0]))
     # waterfall_chart raises KeyError when a level's TF column is not an input column of its comparison
     # (value_l/value_r lookup) - loud and outside the property: no chart requested for such models
-    foreign_tf = any(lv["tf_col"] and lv["tf_col"] != c["name"] for c in spec["comparisons"] for lv in c["levels"])
+    foreign_tf = any(lv["tf_col"] and lv["tf_col"] not in c.get("cols", [c["name"]]) for c in spec["comparisons"] for lv in c["levels"])
     return {"spec": spec, "rows": rows, "lookups": lookups, "rules": rules, "backend": backend,
             "thr_w": thr_w, "thr_p": thr_p, "waterfall": (rng.random() < 0.6) and not foreign_tf}
 
@@ -340,6 +357,13 @@ def correspondence(ctx: Ctx):
         ctx.hist("backend", case["backend"])
         ctx.hist("n_comparisons", len(spec["comparisons"]))
         for c in spec["comparisons"]:
+            if "cols" in c:
+                ks = [G.ecols(lv) for lv in c["levels"]]
+                multi = next((i for i, e in enumerate(ks) if len(e) >= 2), None)
+                single = next((i for i, e in enumerate(ks) if len(e) == 1), None)
+                ctx.hist("two_column_exact_level", "before single-column exact" if (multi is not None and single is not None and multi < single)
+                         else "after single-column exact")
+        for c in spec["comparisons"]:
             ctx.hist("route", c["route"])
             ctx.hist("n_levels", len(c["levels"]))
             for lv in c["levels"]:
@@ -379,11 +403,11 @@ def boundary_stream(ctx: Ctx):
     w = {"spec": {"prior": "1/2", "link_type": "dedupe_only", "tf_cols": ["a"], "boundary": True, "mode": "X",
                   "comparisons": [{"name": "a", "route": "custom", "levels": [
                       {"kind": "null", "col": "a", "arg": None, "sql": None, "m": "1/2", "u": "1/2", "tf_col": None, "w": "1",
-                       "min_u": "0", "disable": False, "exact_col": None, "u_via": "creator", "w_via": "creator"},
+                       "min_u": "0", "disable": False, "exact_col": None, "exact_cols": None, "u_via": "creator", "w_via": "creator"},
                       {"kind": "exact", "col": "a", "arg": None, "sql": None, "m": "9/10", "u": "1/10", "tf_col": "a", "w": "0",
-                       "min_u": "0", "disable": False, "exact_col": "a", "u_via": "creator", "w_via": "creator"},
+                       "min_u": "0", "disable": False, "exact_col": "a", "exact_cols": None, "u_via": "creator", "w_via": "creator"},
                       {"kind": "else", "col": "a", "arg": None, "sql": None, "m": "1/10", "u": "9/10", "tf_col": None, "w": "1",
-                       "min_u": "0", "disable": False, "exact_col": None, "u_via": "creator", "w_via": "creator"}]}]},
+                       "min_u": "0", "disable": False, "exact_col": None, "exact_cols": None, "u_via": "creator", "w_via": "creator"}]}]},
          "rows": [{"unique_id": 1, "a": "ann", "b": "x", "c": "x", "d": "x"}, {"unique_id": 2, "a": "ann", "b": "x", "c": "x", "d": "x"},
                   {"unique_id": 3, "a": "bob", "b": "x", "c": "x", "d": "x"}],
          "lookups": {}, "rules": ["1=1"], "backend": "duckdb", "thr_w": None, "thr_p": None, "waterfall": False,
